@@ -91,6 +91,18 @@ check("C11", "exploration",
       "Sampling disabled (precondition of the statement).",
       "DESIGN.md 4 (C11)", "E4 product enumerator")
 
+check("C09", "exploration",
+      "exhaustive product enumeration (configurations x URL alphabet) with metamorphic relations between rule-side and request-side normalisation",
+      "All 2^6 flag combinations x 2 marketing sets x 8 paths (space, %20, non-ASCII, quote, angle brackets, plus) x every ordered list of <=2 (quick) / <=3 (thorough) distinct parameters over an 11-parameter alphabet (duplicate keys, empty values, bare keys, %20, '+', non-ASCII, marketing keys, upper-case key). Per (configuration, URL): the rule written from the URL matches it; all query permutations match; marketing parameters added are ignored iff configured and the Location carries exactly the sorted skipped parameters iff both flags (targets with and without '?'); ASCII case swap matches iff case is ignored; dropped / changed / added parameter and changed path do not match; rebuild is idempotent and leaves a fresh request unchanged.",
+      "Values never contain encoded delimiters; relation (2) only for distinct decoded keys (statement's precondition). Two open findings (rule source containing a marketing key; key order depending on case) are listed in known_findings.json.",
+      "DESIGN.md 4 (C09)", "E4 product enumerator")
+
+check("C10", "exploration",
+      "exhaustive product enumeration of marker templates x typed expressions x accepted/rejected instantiations x transformer chains, reference substitution oracle",
+      "Six templates (one marker, two segments with prefix names a/ab, two markers in one segment, host+path, header+path, host+path+header with the prefix chain abc/ab/a) x 7 typed marker expressions (integer, lowercase, enum, uuid, date, anything, percent-encoded) x all accepted value combinations and one rejected value at a time in every anchored position x transformer chains of length <=2 over 7 transformers x request header name in rule case / lower case x path-case flag x explicit variables of all 8 kinds. Oracle: match <=> every value accepted by its expression (regex crate, case-insensitive where configured); Location, Action::get_target, the custom header value, the text and the HTML body-filter values equal the template with references replaced longest-name-first by the transformed values (references to unknown markers stay literal).",
+      "ASCII values without '@'. camelize/dasherize/underscorize reference = heck.",
+      "DESIGN.md 4 (C10)", "E4 product enumerator")
+
 ALL = [f"C{n:02d}" for n in range(1, 20)]
 
 NOT_BUILT_REASON = "check not built yet in this round (planned, see DESIGN.md section 0); not claimed until its explorer exists and has been shown to detect a seeded change"
